@@ -56,7 +56,7 @@ def gen_script(ch, ver):
     sent = 0
     accepted = False
     for _ in range(n):
-        k = ch.weighted([3, 5, 5, 2, 3, 2, 1, 1], 'op')
+        k = ch.weighted([3, 5, 5, 2, 3, 2, 1, 1, 2], 'op')
         if k == 0 or (not accepted and ch.draw(3, 'force_accept') != 0):
             v = ch.weighted([8, 2, 1, 2, 1, 1], 'accept_variant')
             if v == 0:
@@ -101,6 +101,8 @@ def gen_script(ch, ver):
             ops.append(('close', code, reason))
         elif k == 5:
             ops.append(('props',))
+        elif k == 8:
+            ops.append(('recv_cancel', ch.draw(5, 'j')))
         elif k == 6:
             ops.append(('raise', ch.choice(RAISES, 'raise')))
             break
@@ -176,8 +178,8 @@ def exc_close_code(what, app_cfg, ws_visible_handler=True):
             # owes the client a close (normal closure, as for a normal return)
             return 1000
     ec = app_cfg.get('error_close_code', 1011)
-    if not valid_close(ec):
-        return 3011
+    if not valid_close(ec) or ec in app_cfg.get('_server_rejects', ()):
+        return 3011       # documented fallback when the server refuses the code
     return ec
 
 
@@ -286,11 +288,16 @@ def check_session(ctx, h, script, app_cfg, cfg, client):
                     allowed.add('WebSocketDisconnected')
                 else:
                     is_text = nxt.get('text') is not None
-                    want = op[1]
+                    want = op[1] if kind == 'recv' else 'text'
                     if want == 'media' or (want == 'text') == is_text:
                         allowed.add('ok')
                     else:
                         allowed.add('PayloadTypeError')
+            cancelled = kind == 'recv_cancel' and o.kind == 'ok' and o.extra == 'cancelled'
+            if cancelled:
+                # the pending receive was cancelled before anything arrived: nothing consumed
+                ctx.probe('recv_cancelled')
+                continue
             if got in ('ok', 'PayloadTypeError') and st == 'A':
                 e += 1
             if got == 'WebSocketDisconnected':
@@ -310,6 +317,8 @@ def check_session(ctx, h, script, app_cfg, cfg, client):
                 ctx.probe('invalid_close_code')
             else:
                 allowed.add('ok')
+                if c in app_cfg.get('_server_rejects', ()) and st != 'C' and not flag1:
+                    allowed = {'Exception'}      # the server refuses this code; the state is unchanged
                 if fail:
                     allowed |= {'LostConnection', 'OSError', 'Exception', 'WebSocketDisconnected'}
             if got == 'ok':
@@ -342,6 +351,12 @@ def check_session(ctx, h, script, app_cfg, cfg, client):
             allowed.add('ok')
         if '<none>' in allowed:
             continue
+        if kind == 'close' and got == 'Exception' and 'Exception' in allowed and not fail:
+            # the server refused the application's explicit close: what the connection can still
+            # do afterwards is server-specific; only the monitors remain in force
+            ctx.probe('explicit_close_rejected')
+            model_broken = True
+            break
         if fail:
             # R: once a send has failed on a lost connection only the protocol
             # monitor and ws.send_after_lost remain in force
@@ -482,6 +497,8 @@ def run(ctx):
     elif fm == 2:
         a = ch.draw(6, 'fail_at')
         cfg['fail_send_at'] = [a, a + 1 + ch.draw(3, 'fail_at2')]
+    if ch.draw(5, 'server_rejects_1011') == 4:
+        cfg['reject_close_codes'] = [1011]     # Autobahn/Daphne refuse the reserved-for-endpoints code
     cfg['max_steps'] = 3000
     ctx.plan = {'cfg': dict(cfg), 'app': {k: (list(v) if isinstance(v, tuple) else v)
                                           for k, v in app_cfg.items()},
@@ -489,6 +506,7 @@ def run(ctx):
                 'script': [[c18._j(x) if not isinstance(x, (bytearray, memoryview)) else
                             'buf:' + bytes(x).decode() for x in op] for op in script]}
     ctx.plan_key = json.dumps(ctx.plan, sort_keys=True, default=repr)
+    app_cfg['_server_rejects'] = tuple(cfg.get('reject_close_codes', ()))
     h = H(ctx, cfg, client, script, app_cfg)
     h.execute()
     check_session(ctx, h, script, app_cfg, cfg, client)
